@@ -98,12 +98,14 @@ class Report:
         return out
 
     def check_floors(self) -> None:
+        """Vacuous-pass guard.  A rule that examines fewer instances than were confirmed by hand on the pinned tree has lost
+        sight of (part of) what its premise quantifies over: the code changed shape or is gone, and the premise is not proved.
+        Reported as a finding on the rule (exit 1), like every other "unproven" (DESIGN A.2 items 1 and 10)."""
         for r in self.rules:
             if len(r.instances) < r.floor:
-                raise AnalysisError(
-                    f"rule {r.id} matched {len(r.instances)} instance(s), below the hand-confirmed floor "
-                    f"{r.floor}: the rule no longer sees what it is meant to check"
-                )
+                r.fail(r.id, f"rule {r.id} ({r.text[:120]}) examined {len(r.instances)} instance(s), below the {r.floor} confirmed on "
+                             f"the pinned tree: the constructs this premise quantifies over are gone or no longer recognisable, so the "
+                             f"premise is not proved for this tree", stmt=f"floor {r.floor}")
 
     def finish(self, known: dict, evidence_dir: str) -> int:
         """Write evidence, print the verdict lines, return the exit code."""
@@ -111,6 +113,7 @@ class Report:
         if not fs:
             # floors guard against vacuous passes; with findings the run is a violation anyway
             self.check_floors()
+            fs = self.findings()
         known_keys = {k["key"]: k for k in known.get("known", []) if k.get("property") == self.prop}
         new = [f for f in fs if f.key() not in known_keys]
         old = [f for f in fs if f.key() in known_keys]
